@@ -1,14 +1,15 @@
 # DSIG: refinement of the signature oracle of Response.v into a model of goxmldsig v1.5.0 ValidationContext.Validate.
 # Not one of the 20 properties: it is the layer the C01/C02 theorems rest on (they quantify over every behaviour of the
 # oracle [dsig]; Dsig.v says what the pinned dependency makes of it).  KERNEL, GEN, HARNESS, PROFILE_MODEL are injected.
-DSIG_MODEL = PROFILE_MODEL + ["Escape", "Xml", "Ns", "Schema", "Decode", "Response", "Dsig"]
+DSIG_MODEL = PROFILE_MODEL + ["Escape", "Xml", "Ns", "Schema", "Decode", "Response", "Dsig", "Build", "Canon"]
 PROPS = {
     "DSIG": dict(
         model_files=DSIG_MODEL,
         trusted_base=[
             KERNEL, GEN, HARNESS,
             "hand-written model Dsig.v of goxmldsig v1.5.0 (pinned by /repo's go.mod; constants written by hand): Validate, findSignature incl. validateShape and the in-place replacement of SignedInfo, verifyCertificate, validateSignature incl. the go-1.21 loop-variable semantics of the reference choice, transform, mapPathToElement/removeElementAtPath, canonicalPrep and TransformExcC14n at tree level, NSTraverse with shared limit + halt + mutation, NSIterateChildren/NSFindOneChildCtx, NSDetatch with insertion sort, SortedAttrs.Less; tied to the library on every run by the correspondence check (stage-exact: outcome and failing stage, path of the signature found, the tree findSignature leaves behind, canonical SignedInfo bytes, canonical referenced bytes)",
-            "oracles (Section variables; the theorems hold for every behaviour of them): canon = goxmldsig Canonicalizer.Canonicalize on a parentless element (serialisation + escaping are NOT modelled), digest = crypto hash by DigestMethod URI, sig_ok = x509.Certificate.CheckSignature, parse_cert = x509.ParseCertificate, reparse = etree.ReadFromBytes (also standing for xml.Unmarshal's tokeniser on the canonical SignedInfo bytes); in the correspondence run they are tables computed with the real library pieces",
+            "canonicalisers: the DSIG theorems hold for every behaviour of the Section variable canon; Canon.v gives it as a FUNCTION canon_model (Canonicalize of the null / c14n 1.0 REC / c14n 1.1 / exclusive canonicalisers, with or without comments, with prefix list, on a parentless element = Dsig.canonical_prep / exc_prep followed by etree WriteTo under WriteSettings{CanonicalEndTags, CanonicalText, CanonicalAttrVal}, escapers of Escape.v, strings.Fields), and the correspondence run evaluates Dsig.v WITH that function: the table computed with the real library only answers for trees holding an element with more than 12 attributes two of which SortedAttrs.Less cannot tell apart (Go's pdqsort is not stable: Canon.outside_model), and every table entry is re-computed by the model and compared byte for byte (plus the canon case set: independently generated elements)",
+            "oracles (Section variables; the theorems hold for every behaviour of them): digest = crypto hash by DigestMethod URI, sig_ok = x509.Certificate.CheckSignature, parse_cert = x509.ParseCertificate, reparse = etree.ReadFromBytes (also standing for xml.Unmarshal's tokeniser on the canonical SignedInfo bytes); in the correspondence run they are tables computed with the real library pieces",
             "laws of the model, exercised by every correspondence case, not proved: H_unmarshal_view (Schema.v: tokenising etree's serialisation yields the tree's tokens); canonicalSerialize(prep x) = Canonicalize x for the four SignedInfo preparations (same calls in canonicalize.go and validate.go); etree index fields consistent with positions; sort.Sort = insertion sort (exact up to 12 attributes per element, and beyond whenever SortedAttrs.Less is a strict total order on them)",
             "types.Signature struct tags: hand-written schema dsig_schema, compared with the real struct tags (reflection) on every run",
             "harness reaches goxmldsig's unexported findSignature / verifyCertificate / getCanonicalSignedInfo / transform / canonicalPrep with go:linkname (the library's own compiled code) to observe intermediate values",
@@ -17,6 +18,6 @@ PROPS = {
         assumptions=[
             "DSIG is not one of the 20 properties; it refines the oracle the C01/C02/C04/C07/C10 theorems quantify over",
             "goxmldsig picks the LAST Reference of the verified SignedInfo as soon as ANY Reference matches the root's ID (shared loop variable under its go 1.21 language version), not the last matching one: modelled as observed, stated as DSIG_reference_used_is_last_of_list, and DSIG_last_matching_reference_refuted",
-            "the canonical byte strings themselves are oracle answers (no C14n serialiser model): what is proved is which element, with which canonicaliser, is digested",
+            "the DSIG theorems say which element, with which canonicaliser, is digested, for every canonicaliser behaviour; what the canonical bytes ARE is Canon.v (theorems under C08)",
         ]),
 }
